@@ -296,7 +296,7 @@ struct Explorer {
             std::string rj = replay_json(cfgi, h2);
             if (poison.count(std::to_string(cfgi) + hist_json(h2))) continue;
             vf::set_current_case(rj, oracles.empty() ? "EXA" : oracles[0] + ":crash");
-            vf::watchdog(20);
+            vf::watchdog(8);
             Result r = exec(cfgi, h2, d + 1 < depth, false, false);
             vf::watchdog(0);
             rep.executions++;
